@@ -338,6 +338,9 @@ func checkResumeVersions(h *world.H) {
 		if !sent[v] {
 			detsim.Fail("bad-resume-version", "watch#%d resumed at %d, which is neither the list version nor the version of any event sent on an earlier session\n%s", w.N, v, srv.Summary())
 		}
+		if v < w.Floor {
+			detsim.Fail("resume-before-received-events", "watch#%d resumed at %d although subscribers had already received version %d: a reconnect must resume after the last event received\n%s", w.N, v, w.Floor, srv.Summary())
+		}
 		if v < prev {
 			detsim.Fail("resume-version-regressed", "watch#%d resumed at %d after an earlier call at %d\n%s", w.N, v, prev, srv.Summary())
 		}
